@@ -91,18 +91,34 @@ def spec_failures(case):
             kind = "subscript-latex" if truthy(sub) else "latex"
             out.append((f"C09:{fn}:{kind}", f"{fn}: LaTeX name is {c['latex']!r}, expected {want_l!r}", {"op": op, "source": s["latex"]}))
         passed = tuple(tuple(x) for x in op["assumptions"])
+        if c.get("assum_raw") is None or s.get("assum_raw") is None:
+            continue
+        got_raw = dict(c["assum_raw"])
         if not passed:
-            if c.get("assum_raw") is not None and s.get("assum_raw") is not None:
-                src_raw = dict(s["assum_raw"])
-                got_raw = dict(c["assum_raw"])
-                if fn == "clone_as_function":
-                    src_raw.pop("commutative", None)
-                    got_raw.pop("commutative", None)
-                if got_raw != src_raw:
-                    out.append((f"C09:{fn}:assumptions-not-inherited",
-                        f"{fn} without assumption keywords: the clone's assumptions differ from its source's "
-                        f"(source passed {s['assum']}, clone has {c['assum']})", {"op": op, "source_assumptions": s["assum"],
-                        "clone_assumptions": c["assum"]}))
+            # no assumptions passed: the clone's FULL assumption dict equals the source's (True and False facts alike)
+            src_raw = dict(s["assum_raw"])
+            if fn == "clone_as_function" and src_raw.get("commutative") is True:
+                src_raw.pop("commutative")       # the default of every function, not recorded by SymPy for functions
+            if got_raw != src_raw:
+                lost = {k: v for k, v in src_raw.items() if got_raw.get(k) != v}
+                out.append((f"C09:{fn}:assumptions-not-inherited",
+                    f"{fn} without assumption keywords: the clone's assumptions differ from its source's; source created with "
+                    f"{dict(ops[op['src']].get('assumptions') or [])} (closure of {s['assum']}), facts lost or changed: {lost}",
+                    {"op": op, "source_op": ops[op["src"]], "source_assumptions": s["assum"], "clone_assumptions": c["assum"], "lost": lost}))
+            qs, qc = s.get("queries") or {}, c.get("queries") or {}
+            bad_q = {q: (qs[q], qc.get(q)) for q in qs if qc and qs[q] is not qc.get(q)}
+            if bad_q:
+                out.append((f"C09:{fn}:assumption-queries",
+                    f"{fn} without assumption keywords: derived queries differ between source and clone (source, clone): {bad_q}; "
+                    f"source created with {dict(ops[op['src']].get('assumptions') or [])}",
+                    {"op": op, "source_op": ops[op["src"]], "queries": {k: [str(x) for x in v] for k, v in bad_q.items()}}))
+        else:
+            # assumptions passed: they replace the source's -- the clone has exactly the closure of what was passed
+            want = case["tabs"][{"clone_as_symbol": "sym", "clone_as_function": "fun", "clone_as_indexed": "idx"}[fn]][symgen.ASSUMS.index(passed)] \
+                if passed in symgen.ASSUMS else None
+            if want is not None and got_raw != want:
+                out.append((f"C09:{fn}:passed-assumptions", f"{fn} with assumptions {dict(passed)}: the clone has {c['assum']} "
+                    f"(differs from what SymPy derives from the passed facts)", {"op": op, "clone_assumptions": c["assum"]}))
 
     # (4) printing shows display names, never generated internal names
     has_given = []
@@ -237,6 +253,20 @@ def shrink(case, key, detail, t):
         idx = [k for k, o in enumerate(ops) if o is detail["op"]]
     if not idx:
         return None
+    if key.split(":")[1] in CLONE_FN.values() and "op" in detail and len(idx) == 1:
+        # two operations: the source re-created directly with the facts it ended up with, then the failing clone
+        cl = ops[idx[0]]
+        root = cl["src"]
+        while ops[root]["op"] in CLONE_FN:
+            root = ops[root]["src"]
+        src_seen = case["seen"][cl["src"]]
+        two = [{"op": src_seen["kind"], "display": src_seen["display"], "latex": src_seen["latex"],
+                "assumptions": [list(x) for x in (src_seen["assum"] or ())], "dimension": ops[root]["dimension"]}, dict(cl, src=0)]
+        try:
+            if any(k == key for k, _, _ in spec_failures(replay_ops(two, t))):
+                return two
+        except Exception:  # pylint: disable=broad-except
+            pass
     keep = ancestors(ops, idx)
     remap = {old: new for new, old in enumerate(keep)}
     small = []
@@ -277,8 +307,8 @@ def run(ctx):
     store_stream(ctx, ctx.pick(80, 400), 200)
     ctx.coverage["rule"] = ("store stream: seeded sequences of 3..200 creations/clones (Symbol, IndexedSymbol, Function, Quantity, "
         "CoordinateSystem/transform/rotate, VectorSymbol, QuantityVector, clone_as_symbol/function/indexed) with display names from a pool "
-        "of 8 (collisions frequent), optional latex/subscript incl. '' and None, assumption sets from {none, positive, real, integer, "
-        "nonnegative, integer+positive}, counters bumped to 10^m - j; distinct = distinct operation lists; non-trivial = contains a clone. "
+        "of 8 (collisions frequent), optional latex/subscript incl. '' and None, 20 signed assumption sets (True and False facts: positive, real, integer, "
+        "nonnegative, zero=False, real=False+complex, negative=False, integer=False, positive=False, nonzero, even, odd, commutative=False, ...), counters bumped to 10^m - j; distinct = distinct operation lists; non-trivial = contains a clone. "
         "ids stream: random next_id/next_name/last_id histories over the source's prefixes from boundary counter states.")
 
 
@@ -359,6 +389,7 @@ def replay_ops(ops, t, probe=None):
         rec["assum"] = symgen.classify_assumptions(raw, tabs.get(o.kind, tabs["sym"])) if o.kind in tabs else ()
         term = o.term(t)
         rec["pp"], rec["code"] = print_expression(term), code_str(term)
+        rec["queries"] = {q: getattr(term, q, None) for q in symgen.QUERIES} if o.kind in symgen.SCALAR else {}
         seen.append(rec)
     alias = [(i, j) for i in range(len(objs)) for j in range(i + 1, len(objs)) if objs[i].handle == objs[j].handle]
     import sympy
@@ -374,4 +405,4 @@ def replay_ops(ops, t, probe=None):
         raw = (e.subs(X, 7), sympy.diff(e, X), sympy.solve(e, X))
         algebra.append({"idx": tuple(idx), "raw": raw, "texts": [str(r) for r in raw]})
     return {"seen": seen, "ops": kept, "objs": objs, "alias": alias, "not_self_equal": [], "algebra": algebra, "sums": sums, "t": t,
-        "ids_before": before}
+        "ids_before": before, "tabs": tabs}
